@@ -3,11 +3,12 @@ import collections
 from .. import cases as K
 from ..layer_a import Engine, proj_default
 from ..tuple_part import TuplePart
+from ..trace_part import TracePart
 from ..runner import run_coexec, replay_coexec
 
 MODULE = "Props.C01"
 THEOREMS = ["C01_first_match", "C01_no_match", "C01_frame_other_methods", "C01_frame_state", "C01_history",
-            "C01_patterns_in_declaration_order", "C01_first_match_is_first", "C01_nonvacuous"]
+            "C01_patterns_in_declaration_order", "C01_first_match_is_first", "C01_later_patterns_are_not_consulted", "C01_nonvacuous"]
 
 
 def method_patterns(case, mid):
@@ -113,7 +114,7 @@ def run(tier, seed):
     from ..layer_b import ConcurrentPart
     return run_coexec("C01", tier, seed, module=MODULE, theorems=THEOREMS, gen_cases=gen_cases,
                       nontrivial=nontrivial, rule=RULE, engines=engines(tier), stats=stats,
-                      parts=[TuplePart("C01", proj_default),
+                      parts=[TuplePart("C01", proj_default), TracePart("C01", n_quick=120, n_thorough=1200),
                              ConcurrentPart("C01", overlapping_programs, "correspondence C01 (concurrent part): overlapping calls to overlapping patterns - which "
                                             "pattern answers, and the counts the verdict is computed from, vs the Layer B model under every interleaving")])
 
